@@ -31,11 +31,28 @@ MEMBERS = {
     'prop': ("{D}@property\ndef prop(self) -> int:\n    'doc of prop'\n    return self._v\n", [('getattr', 'prop', '1', "'s'")]),
     'prop_rw': ("@property\ndef prw(self) -> int:\n    return self._v\n{D}@prw.setter\ndef prw(self, v: int) -> None:\n    self._v = v\n",
                 [('getattr', 'prw', '1', "'s'"), ('setattr', 'prw', '1', "'s'")]),
+    'prop_gd': ("@property\ndef pgd(self) -> int:\n    return self._v\n{D}@pgd.deleter\ndef pgd(self) -> None:\n    return self._v\n",
+                [('getattr', 'pgd', '1', "'s'"), ('delattr', 'pgd', 'None', '1')]),
+    'prop_gsd': ("@property\ndef pall(self) -> int:\n    return self._v\n@pall.setter\ndef pall(self, v: int) -> None:\n    self._v = v\n"
+                 "{D}@pall.deleter\ndef pall(self) -> None:\n    return self._v\n",
+                 [('getattr', 'pall', '1', "'s'"), ('setattr', 'pall', '1', "'s'"), ('delattr', 'pall', 'None', '1')]),
+    'prop_sd_unann_get': ("@property\ndef pua(self):\n    return self._v\n@pua.setter\ndef pua(self, v: int) -> None:\n    self._v = v\n"
+                          "{D}@pua.deleter\ndef pua(self) -> None:\n    return self._v\n",
+                          [('getattr', 'pua', '1', "'s'"), ('setattr', 'pua', '1', "'s'"), ('delattr', 'pua', 'None', '1')]),
+    'tower': ("{D}def tower(self, x: float) -> float:\n    return x\n", [('inst', 'tower', '1.5', "'s'"), ('inst', 'tower', '1', 'None')]),
+    'badhint': ("{D}def badhint(self, x: 0xBAD) -> int:\n    return x\n", [('inst', 'badhint', '1', "'s'")]),
     'unann': ("{D}def unann(self, x):\n    return x\n", [('inst', 'unann', '1', "'s'")]),
     'wraps': ("{D}@deco\ndef wrapped(self, x: int) -> int:\n    return x\n", [('inst', 'wrapped', '1', "'s'")]),
     'strhint': ("{D}def strhint(self, x: 'Local') -> 'Local':\n    return x\n", [('inst', 'strhint', 'Local()', '1')]),
     'selfhint': ("{D}def selfhint(self, other: 'Outer') -> 'Outer':\n    return other\n", [('inst', 'selfhint', 'Outer()', '1')]),
     'nocheck': ("{D}@no_type_check\ndef nocheck(self, x: int) -> int:\n    return x\n", [('inst', 'nocheck', '1', "'s'")]),
+}
+NEVER_REJECT = ('unann', 'nocheck', 'badhint')
+CONFS = {
+    'default': None,
+    'warn': 'BeartypeConf(warning_cls_on_decorator_exception=BeartypeClawDecorWarning)',
+    'tower': 'BeartypeConf(is_pep484_tower=True)',
+    'warn+tower': 'BeartypeConf(warning_cls_on_decorator_exception=BeartypeClawDecorWarning, is_pep484_tower=True)',
 }
 NESTED = {
     'nest1': 1, 'nest2': 2, 'nest3': 3,
@@ -49,7 +66,7 @@ def indent(src, n):
 
 def class_source(members, variant, base, dataclass, in_function, nest):
     """Source of one program.  variant in PLAIN / CLASS / MEMBER."""
-    D = '@beartype\n' if variant == 'MEMBER' else ''
+    D = '@bt\n' if variant == 'MEMBER' else ''
     body = ''
     if dataclass:
         body += 'fld: int = 0\n'
@@ -69,7 +86,7 @@ def class_source(members, variant, base, dataclass, in_function, nest):
     head = ''
     if base:
         head += 'class Base:\n    def inherited(self, x: int) -> int:\n        return x\n    def __init__(self, v=1):\n        self._v = v\n'
-    cls = ('@beartype\n' if variant == 'CLASSSRC' else '') + ('@dataclass\n' if dataclass else '') + f'class Outer{"(Base)" if base else ""}:\n' + indent(body, 1)
+    cls = ('@bt\n' if variant == 'CLASSSRC' else '') + ('@dataclass\n' if dataclass else '') + f'class Outer{"(Base)" if base else ""}:\n' + indent(body, 1)
     src = 'class Local:\n    pass\n' + head + cls
     if in_function:
         src = 'def factory():\n' + indent(src + 'return Outer, Local, ' + ('Base' if base else 'None') + '\n', 1) + 'Outer, LocalRef, Base = factory()\n'
@@ -78,11 +95,18 @@ def class_source(members, variant, base, dataclass, in_function, nest):
     return src
 
 
-PRELUDE = ('import functools\nfrom dataclasses import dataclass\nfrom typing import no_type_check\nfrom beartype import beartype\n'
+PRELUDE = ('import functools\nfrom dataclasses import dataclass\nfrom typing import no_type_check\nfrom beartype import beartype, BeartypeConf\n'
+           'from beartype.roar import BeartypeClawDecorWarning\n'
            'def deco(fn):\n    @functools.wraps(fn)\n    def closure(*args, **kwargs):\n        return fn(*args, **kwargs)\n    closure.marker = "set-by-deco"\n    return closure\n')
 
 
-def build(src, name):
+def conf_prelude(conf):
+    c = CONFS[conf]
+    return 'bt = beartype\n' if c is None else f'CONF = {c}\nbt = beartype(conf=CONF)\n'
+
+
+def build(src, name, conf='default'):
+    src = conf_prelude(conf) + src
     ns = {'__name__': name}
     mod = type(sys)(name)
     mod.__dict__.update(ns)
@@ -131,6 +155,12 @@ def observe_calls(ns, members, nest):
                         o._v = arg
                         return getattr(o, attr)
                     out.append((m, how, argsrc, outcome(th)))
+                elif how == 'delattr':
+                    def th():
+                        o = Outer()
+                        o._v = arg
+                        delattr(o, attr)
+                    out.append((m, how, argsrc, outcome(th)))
                 else:
                     def th():
                         o = Outer()
@@ -147,18 +177,17 @@ def observe_calls(ns, members, nest):
 
 
 def check_program(prog, part):
-    from beartype import beartype
-    members, base, dataclass, in_function, nest = prog
+    members, base, dataclass, in_function, nest, conf = prog
     viol, cov = part['violations'], part['cover']
-    key = f'{"+".join(members)}{"+base" if base else ""}{"+dc" if dataclass else ""}{"+infn" if in_function else ""}{"+nest%d" % nest if nest else ""}'
+    key = f'{"+".join(members)}{"+base" if base else ""}{"+dc" if dataclass else ""}{"+infn" if in_function else ""}{"+nest%d" % nest if nest else ""}{"@" + conf if conf != "default" else ""}'
     k = cov['states']
     srcs = {v: class_source(members, v, base, dataclass, in_function, nest) for v in ('PLAIN', 'CLASS', 'CLASSSRC', 'MEMBER')}
-    rep = {'program': key, 'source_member_variant': PRELUDE + srcs['MEMBER']}
+    rep = {'program': key, 'source_member_variant': PRELUDE + conf_prelude(conf) + srcs['MEMBER']}
     with warnings.catch_warnings():
         warnings.simplefilter('ignore')
         try:
-            P = build(srcs['PLAIN'], f'c13_plain_{k}')
-            C = build(srcs['CLASS'], f'c13_class_{k}')
+            P = build(srcs['PLAIN'], f'c13_plain_{k}', conf)
+            C = build(srcs['CLASS'], f'c13_class_{k}', conf)
             before = dict(C['Outer'].__dict__)
             base_before = dict(C['Base'].__dict__) if base else None
             nested_before = {}
@@ -166,12 +195,13 @@ def check_program(prog, part):
             for lvl in range(1, nest + 1):
                 c = getattr(c, f'N{lvl}')
                 nested_before[lvl] = dict(c.__dict__)
+            beartype = C['bt']
             ret = beartype(C['Outer'])
         except Exception as e:
             viol.append((f'class-decorate:{type(e).__name__}:{key}', f'beartype(class) raised {type(e).__name__}: {str(e)[:200]}', rep))
             return
         try:
-            M = build(srcs['MEMBER'], f'c13_member_{k}')
+            M = build(srcs['MEMBER'], f'c13_member_{k}', conf)
         except Exception as e:
             viol.append((f'member-decorate:{type(e).__name__}:{key}', f'per-member @beartype raised {type(e).__name__}: {str(e)[:200]} while decorating the class as a whole works', rep))
             return
@@ -180,7 +210,7 @@ def check_program(prog, part):
             viol.append((f'class-identity:{key}', 'beartype(C) is not C', rep))
         # call-for-call equivalence: @beartype written on the outermost class (where it is defined) vs on every member
         try:
-            CS = build(srcs['CLASSSRC'], f'c13_classsrc_{k}')
+            CS = build(srcs['CLASSSRC'], f'c13_classsrc_{k}', conf)
         except Exception as e:
             viol.append((f'class-decorate-in-source:{type(e).__name__}:{key}', f'@beartype on the class raised {type(e).__name__}: {str(e)[:200]}', rep))
             return
@@ -194,8 +224,13 @@ def check_program(prog, part):
         if oc != om:
             diff = [(a, b) for a, b in zip(oc, om) if a != b][:3]
             viol.append((f'class-vs-members:{key}', f'decorating the class and decorating each member differ: (class route, member route) = {diff}', rep))
-        if all(o[-1] == 'ok' for o in oc) and any(m not in ('unann', 'nocheck') for m in members):
-            viol.append((f'no-rejection:{key}', f'harness: no bad argument was rejected: {oc}', rep))
+        # every member with checkable annotations rejects its bad argument (the wrapper really checks: this is what
+        # "decorating each function, classmethod, staticmethod and property" means), on both routes
+        for route, obs in (('class', oc), ('member', om)):
+            for (m, how, argsrc, res) in obs:
+                if m in MEMBERS and m not in NEVER_REJECT and m != 'tower' and (m, how) != ('prop_sd_unann_get', 'getattr') and \
+                        any(argsrc == bad for (_h, _a, _g, bad) in MEMBERS[m][1] if _h == how) and not res.startswith('viol:'):
+                    viol.append((f'unchecked-member:{route}:{m}:{how}', f'{key}: {route} route: {m} via {how} accepted the bad value {argsrc} ({res})', rep))
         # descriptor kinds, names, docs, signatures vs PLAIN; __wrapped__ is the decorated member
         after = C['Outer'].__dict__
         for name, d0 in before.items():
@@ -207,7 +242,11 @@ def check_program(prog, part):
             f0s, f1s, fps = unwrap_descr(d0), unwrap_descr(d1), unwrap_descr(p)
             for f0, f1, fp in zip(f0s, f1s, fps):
                 if f1 is f0:
-                    continue                       # left undecorated (unannotated / no_type_check)
+                    # left undecorated: only the documented identity cases (unannotated, @no_type_check) and members
+                    # whose decoration failed with the configured warning may stay as they are
+                    if getattr(f0, '__annotations__', None) and not getattr(f0, '__no_type_check__', False) and name != 'badhint':
+                        viol.append((f'not-wrapped:{name}:{f0.__name__}', f'{key}: annotated function {f0.__qualname__} behind class attribute {name} was left undecorated', rep))
+                    continue
                 if getattr(f1, '__wrapped__', None) is not f0:
                     viol.append((f'wrapped:{name}', f'{key}: {name}.__wrapped__ is {getattr(f1, "__wrapped__", None)!r}, not the member that was decorated ({f0!r})', rep))
                 for a in ('__name__', '__qualname__', '__doc__'):
@@ -220,6 +259,11 @@ def check_program(prog, part):
                         viol.append((f'attribute-lost:{name}.{a}', f'{key}: attribute {a!r} of the decorated member is not carried by the wrapper', rep))
             if name in ('unann', 'nocheck') and d1 is not d0:
                 viol.append((f'noop-not-identity:{name}', f'{key}: {name} has no checkable annotations but was replaced', rep))
+        for name in before:
+            wc = [hasattr(f, '__wrapped__') for f in unwrap_descr(after.get(name))]
+            wm = [hasattr(f, '__wrapped__') for f in unwrap_descr(M['Outer'].__dict__.get(name))]
+            if name != 'wrapped' and not name.startswith('__') and wc != wm:      # (dataclass-generated methods have no member route)
+                viol.append((f'wrapped-status:{name}', f'{key}: functions behind {name} wrapped on the class route {wc}, on the member route {wm}', rep))
         if base:
             base_after = {k: v for k, v in C['Base'].__dict__.items() if k != '__annotations__'}     # CPython creates it lazily on read
             base_before.pop('__annotations__', None)
@@ -247,7 +291,40 @@ def check_program(prog, part):
 
 
 def programs(tier):
-    names = list(MEMBERS)
+    return [p + ('default',) for p in _programs(tier)] + conf_programs(tier)
+
+
+def conf_programs(tier):
+    """the configuration axis: every member alone under every configuration; an undecoratable member before and after
+    every other member under the warn-instead-of-raise configurations (what the import hook uses)"""
+    out = []
+    for conf in CONFS:
+        if conf == 'default':
+            continue
+        for m in MEMBERS:
+            if m == 'badhint' and 'warn' not in conf:
+                continue
+            infn = m == 'strhint'
+            out.append(((m,), False, False, infn, 0, conf))
+        if 'warn' in conf:
+            for m in MEMBERS:
+                if m == 'badhint':
+                    continue
+                infn = m == 'strhint'
+                out.append((('badhint', m), False, False, infn, 0, conf))
+                out.append(((m, 'badhint'), False, False, infn, 0, conf))
+                if tier != 'quick':
+                    out.append((('badhint', m), True, False, infn, 0, conf))
+                    out.append(((m, 'badhint', 'plain_ret'), False, False, infn, 0, conf))
+            for nest in (1, 2):
+                out.append((('badhint', 'plain'), False, False, False, nest, conf))
+        else:
+            out.append((('tower',), False, False, False, 2, conf))
+    return out
+
+
+def _programs(tier):
+    names = [n for n in MEMBERS if n != 'badhint']
     maxm = 2 if tier == 'quick' else 3
     out = []
     for n in range(1, maxm + 1):
@@ -345,10 +422,10 @@ def run(ctx):
     ctx.cover(
         evaluations=tot['evaluations'] + n_noop, states=tot['states'], transitions=tot['calls'], traces_validated_against_impl=tot['evaluations'],
         distinct_nontrivial=tot['states'], programs=len(progs), calls_compared=tot['calls'], interpreter_runs=n_noop, exhaustive=True,
-        samples=[PRELUDE.splitlines()[4] + ' ...', class_source(*progs[len(progs) // 2][:1], 'MEMBER', *progs[len(progs) // 2][1:])],
+        samples=[PRELUDE.splitlines()[5] + ' ...', class_source(*progs[len(progs) // 2][:1], 'MEMBER', *progs[len(progs) // 2][1:5])],
         rule=(f'E1: {len(progs)} class programs = every combination of <= {2 if ctx.quick else 3} members out of {len(MEMBERS)} kinds (plain / class / static '
-              'method, property get and get+set, functools.wraps closure, unannotated, @no_type_check, string hints naming a function-local class or '
-              'the class itself) x base class x @dataclass x module-level / inside a function, plus classes nested 1-3 deep; three copies from '
+              'method, property with every accessor subset, float member, functools.wraps closure, unannotated, @no_type_check, string hints naming a function-local class or '
+              'the class itself) x base class x @dataclass x module-level / inside a function, plus classes nested 1-3 deep, plus the configuration axis (default, tower, warn-on-decoration-error with an undecoratable member before / after every other member); three copies from '
               'one source (plain, class-decorated, member-decorated); outcomes of good and bad calls through instance and class, descriptor kinds, '
               '__name__/__qualname__/__doc__/signature/function attributes, __wrapped__, inherited members, idempotence; identity cases under '
               'python, python -O and python -OO.'),
